@@ -213,7 +213,16 @@ def analyse(rep, prog, name, full):
         return
     W = blocks[0][1]
     o = ords[0][0]
-    rep.check("PERM.ordering", o == ("ext", "numpy.argsort", (pt,), ()), fwhere(f, ords[0][1].node), "ordering = argsort(permutation), the inverse map (position -> node)",
+    def inverse_of(o_):
+        if o_ == ("ext", "numpy.argsort", (pt,), ()):
+            return True
+        # written out: inv = np.empty(len(perm), dtype=int); inv[perm] = np.arange(len(perm))
+        n_ = (("ext", "len", (pt,), ()), Pp, ("sub", ("attr", pt, "shape"), ("const", 0)), ("attr", pt, "size"))
+        return o_[0] == "store" and o_[2] == pt and o_[4] is None and o_[1][0] == "ext" and o_[1][1] in ("numpy.empty", "numpy.zeros", "numpy.empty_like", "numpy.zeros_like") and \
+            (o_[1][2][:1] in tuple((x_,) for x_ in n_) or o_[1][2][:1] == (pt,)) and o_[3][0] == "ext" and o_[3][1] in ("numpy.arange", "range") and len(o_[3][2]) == 1 and o_[3][2][0] in n_ and \
+            dict(o_[1][3]).get("dtype", ("extref", "int")) in (("extref", "int"), ("extref", "numpy.intp"), ("extref", "numpy.int64"), ("const", "int")) if o_[1][1] in ("numpy.empty", "numpy.zeros") else \
+            (o_[0] == "store" and o_[2] == pt and o_[4] is None and o_[1][0] == "ext" and o_[1][2][:1] == (pt,) and o_[3][0] == "ext" and o_[3][1] in ("numpy.arange", "range") and len(o_[3][2]) == 1 and o_[3][2][0] in n_)
+    rep.check("PERM.ordering", inverse_of(o), fwhere(f, ords[0][1].node), "ordering = argsort(permutation), the inverse map (position -> node)",
               "the returned ordering is %s, not argsort(permutation)" % fmt(o)[:80])
     # W = mask * weights
     if not (W[0] == "binop" and W[1] == "*"):
